@@ -458,6 +458,8 @@ class SymCtx:
     def _cmp_terms(self, x, y, op):
         S = self.S
         d = x - y
+        if d.d is None and S.REG.sqrt_def and any(e < 0 and v in S.REG.sqrt_def for m in d.n for v, e in m):
+            d = S.R(S._clear_neg_sqrt(d.n))  # sqrt variables in denominators are positive: sign preserved
         if d.is_const():
             return op(S._const_val(d.n)[0], 0)
         self._need_defs(d)
